@@ -531,6 +531,8 @@ func c18R3(p *Prog, r *Report) {
 		}
 		r.Check(ok && n >= 1, rule, "service.(*"+site.recv+").Initialize:psk-length-before-cipher", p.posStr(fc.Body.Pos()), fmt.Sprintf("%d cipher configurations derived only after CheckPSKLength succeeded", n), "a cipher configuration is derived from keys whose length was not checked against the method")
 	}
+	// the check itself tests every key it is given: the user key and each element of the key list
+	c18PSKCheckCoversEveryKey(p, r, rule)
 	// every protocol with ss2022 keys is covered: the case list that checks PSK equals the case lists that build ss2022 servers/clients
 	c18ProtocolCases(p, r, rule)
 	// NAT timeout
@@ -1426,4 +1428,131 @@ func isSessionServerInfoCall(info *types.Info, e ast.Expr) bool {
 	}
 	sel, ok := ast.Unparen(c.Fun).(*ast.SelectorExpr)
 	return ok && sel.Sel.Name == "Info" && namedTypeName(info.TypeOf(sel.X)) == "UDPSessionServer"
+}
+
+
+// c18PSKCheckCoversEveryKey: ss2022.CheckPSKLength is the only place where identity keys (iPSKs) are
+// measured before ciphers are built from them (a wrong length is a silent wrong AES variant or a
+// makeslice panic on the first connection). Every byte-slice parameter has its own len() compared
+// with the method's key length, and every element of a [][]byte parameter is compared inside a
+// loop over that parameter — the element itself (the range value, or the parameter indexed by the
+// range key), not some other variable of the same type that happens to be in scope.
+func c18PSKCheckCoversEveryKey(p *Prog, r *Report, rule string) {
+	fc := p.Inlined(p.Func("ss2022", "", "CheckPSKLength"))
+	info := fc.Info()
+	prefix := "ss2022.CheckPSKLength"
+	// the expected length: result 0 of PSKLengthForMethod
+	var want types.Object
+	for _, cs := range fc.AllCalls() {
+		if cs.Fn != nil && cs.Fn.Name() == "PSKLengthForMethod" {
+			want = cs.ResultVar(0)
+		}
+	}
+	if want == nil {
+		r.Fail(rule, prefix+":expected-length", p.posStr(fc.Body.Pos()), "the expected key length is not taken from PSKLengthForMethod")
+		return
+	}
+	// a length test of expression e: cond `len(e) != want` (or ==) whose mismatch edge reaches only non-nil error returns
+	lenTested := func(isE func(ast.Expr) bool, within func(int) bool) bool {
+		for _, v := range fc.G.V {
+			x, y, op, ok := condParts(v)
+			if !ok || y == nil || (op != token.NEQ && op != token.EQL) || (within != nil && !within(v.ID)) {
+				continue
+			}
+			var lenSide, other ast.Expr
+			for _, pr := range [][2]ast.Expr{{x, y}, {y, x}} {
+				if c, isC := ast.Unparen(pr[0]).(*ast.CallExpr); isC && exprStr(c.Fun) == "len" && len(c.Args) == 1 && isE(c.Args[0]) {
+					lenSide, other = pr[0], pr[1]
+				}
+			}
+			if lenSide == nil || objOf(info, fc.Resolve(other)) != want && objOf(info, other) != want {
+				continue
+			}
+			mismatch := LTrue
+			if op == token.EQL {
+				mismatch = LFalse
+			}
+			good := false
+			for _, e := range v.Succs {
+				if e.Label != mismatch {
+					continue
+				}
+				good = true
+				// from the mismatch edge, every exit reached without passing another condition is an error return
+				reach := fc.G.Reach([]int{e.To}, func(u *Vertex) bool { return u.Kind == VCond || u.Kind == VRange }, nil)
+				sawRet := false
+				for _, ret := range fc.Returns() {
+					if reach[ret] {
+						sawRet = true
+						if fc.ErrAtReturn(ret) != ErrNonNil {
+							good = false
+						}
+					}
+				}
+				if !sawRet {
+					good = false
+				}
+			}
+			if good {
+				return true
+			}
+		}
+		return false
+	}
+	n := 0
+	for i := 0; fc.ParamObj(i) != nil; i++ {
+		po := fc.ParamObj(i)
+		sl, isSl := po.Type().Underlying().(*types.Slice)
+		if !isSl {
+			continue
+		}
+		if b, isB := sl.Elem().Underlying().(*types.Basic); isB && b.Kind() == types.Uint8 {
+			n++
+			ok := lenTested(func(e ast.Expr) bool { return objOf(info, e) == po }, nil)
+			r.Check(ok, rule, prefix+":length-tested:"+fmt.Sprintf("param#%d:%s", i, po.Type().String()), p.posStr(fc.Body.Pos()), "the key's own length is compared with the method's key length and a mismatch is an error", "the key parameter "+po.Name()+" is not length-checked against the method's key length (mismatch must return an error)")
+			continue
+		}
+		if in, isIn := sl.Elem().Underlying().(*types.Slice); isIn {
+			if b, isB := in.Elem().Underlying().(*types.Basic); !isB || b.Kind() != types.Uint8 {
+				continue
+			}
+			n++
+			ok := false
+			for _, h := range fc.G.V {
+				if h.Kind != VRange {
+					continue
+				}
+				rs := h.Stmt.(*ast.RangeStmt)
+				if objOf(info, rs.X) != po {
+					continue
+				}
+				var ko, vo types.Object
+				if rs.Key != nil {
+					ko = objOf(info, rs.Key)
+				}
+				if rs.Value != nil {
+					vo = objOf(info, rs.Value)
+				}
+				isElem := func(e ast.Expr) bool {
+					e = ast.Unparen(e)
+					if o := objOf(info, e); o != nil && o == vo {
+						return true
+					}
+					if ix, isIx := e.(*ast.IndexExpr); isIx && objOf(info, ix.X) == po && ko != nil && objOf(info, ix.Index) == ko {
+						return true
+					}
+					return false
+				}
+				inBody := func(id int) bool {
+					nd := fc.G.V[id].Node
+					return nd != nil && rs.Body.Pos() <= nd.Pos() && nd.End() <= rs.Body.End()
+				}
+				if lenTested(isElem, inBody) {
+					ok = true
+				}
+			}
+			r.Check(ok, rule, prefix+":every-element-length-tested:"+fmt.Sprintf("param#%d:%s", i, po.Type().String()), p.posStr(fc.Body.Pos()), "each element of the key list has its own length compared with the method's key length inside a loop over the list", "the elements of the key list "+po.Name()+" are not each length-checked (the loop over the list must compare len(element) with the method's key length and return an error on mismatch): identity keys of the wrong length are accepted at load and select the wrong AES variant or panic on the first connection")
+		}
+	}
+	r.Check(n >= 2, rule, prefix+":key-parameters", p.posStr(fc.Body.Pos()), "user key and key list parameters found", fmt.Sprintf("only %d key parameters found in CheckPSKLength", n))
 }
